@@ -233,6 +233,7 @@ Lemma quiet_pop_task s : quiet s (pop_task s). Proof. apply quiet_view; reflexiv
 Lemma quiet_with_tasks s t : quiet s (with_tasks s t). Proof. apply quiet_view; reflexivity. Qed.
 Lemma quiet_with_active s a : quiet s (with_active s a). Proof. apply quiet_view; reflexivity. Qed.
 Lemma quiet_reset_sched s : quiet s (reset_sched s). Proof. apply quiet_view; reflexivity. Qed.
+Lemma quiet_drop_sb s : quiet s (drop_sb s). Proof. apply quiet_view; [apply batches_drop_sb|apply trace_drop_sb]. Qed.
 
 Ltac qh :=
   repeat match goal with
@@ -245,6 +246,7 @@ Ltac qh :=
   | |- quiet _ (with_tasks _ _) => eapply quiet_trans; [|apply quiet_with_tasks]
   | |- quiet _ (with_active _ _) => eapply quiet_trans; [|apply quiet_with_active]
   | |- quiet _ (reset_sched _) => eapply quiet_trans; [|apply quiet_reset_sched]
+  | |- quiet _ (drop_sb _) => eapply quiet_trans; [|apply quiet_drop_sb]
   | |- quiet _ (resume_contexts _ _) => eapply quiet_trans; [|apply quiet_resume_contexts]
   | |- quiet _ (pause_contexts _ _) => eapply quiet_trans; [|apply quiet_pause_contexts]
   | |- quiet _ (complete_task _ _ _) => eapply quiet_trans; [|apply quiet_complete_task]
